@@ -810,7 +810,8 @@ def addr_level(rng, tier, st):
 # ---------------------------------------------------------------------------------------------------------------------
 # request histories through the process-wide CompressedWeightCache
 BLOCK_TYPE = {"conv": 1, "tconv": 1, "depthwise": 2, "fc": 3}
-KEY_FIELDS = ["block_type", "block_depth_clipped", "slices", "dilation", "weight_value_id"]
+# the fields of WeightCompressionConfig (the last two since repo commit 845322f)
+KEY_FIELDS = ["block_type", "block_depth_clipped", "slices", "dilation", "weight_value_id", "ifm_bitdepth", "op_type_transpose_flip"]
 
 
 def fbits(x):
@@ -835,7 +836,7 @@ def eff_sections(r):
 
 def gen_history(rng, sound=True):
     """a list of request dicts.  Requests on the same weight index share the weight tensor (value_id).  sound: requests
-    sharing a weight tensor agree on everything outside the key (IFM type, accelerator, operator kind)"""
+    sharing a weight tensor agree on everything outside the key (the accelerator)"""
     nw = rng.randint(1, 3)
     pool = []
     for _ in range(nw):
@@ -866,14 +867,15 @@ def gen_history(rng, sound=True):
             q["dil"] = rng.choice([[1, 1], [1, 1], [2, 2], [2, 1]])
         q["bseed"] = rng.choice([base["bseed"], rng.getrandbits(30)])
         q["ofm_scale"] = rng.choice([base["ofm_scale"], base["ofm_scale"], 0.0625])
+        # in the key: operators of different IFM width / a convolution and a transpose convolution sharing one weight tensor
+        if base["wdtype"] == "int8" and rng.random() < 0.35:
+            q["ifm_dtype"] = rng.choice(["int8", "int16"])
+        if base["kind"] in ("conv", "tconv") and rng.random() < 0.35:
+            q["kind"] = rng.choice(["conv", "tconv"])
+            q["dil"] = [1, 1]
         if not sound:
-            what = rng.choice(["ifm_bitdepth", "op_type_transpose_flip", "accelerator_ncores", "accelerator_ublock"])
-            if what == "ifm_bitdepth" and base["wdtype"] == "int8":
-                q["ifm_dtype"] = rng.choice(["int8", "int16"])
-            elif what == "op_type_transpose_flip" and base["kind"] in ("conv", "tconv"):
-                q["kind"] = rng.choice(["conv", "tconv"])
-                q["dil"] = [1, 1]
-            elif what == "accelerator_ncores":
+            what = rng.choice(["accelerator_ncores", "accelerator_ublock"])
+            if what == "accelerator_ncores":
                 q["accel"] = rng.choice(["ethos-u65-512", "ethos-u65-256"])
             else:
                 q["accel"] = rng.choice(["ethos-u55-32", "ethos-u55-64"])
